@@ -170,8 +170,9 @@ class Deliver(Part):
     exec_module = "DeliverExec"
     parallel = False        # the runs are timing-sensitive enough: one at a time
     branch_names = {1: "several_senders", 2: "crosses_batch_bound_4096", 3: "over_300_consecutive_batches",
-                    4: "restarts_with_senders_active"}
+                    4: "restarts_with_senders_active", 5: "sends_while_Started_is_running"}
     restart_only = False
+    spawnrace_only = False
 
     def generate(self, rng, tier):
         cs = [dict(mode="chain", total=350), dict(mode="chain", total=1000),
@@ -184,6 +185,11 @@ class Deliver(Part):
                         restart_delay_ms=25, handler_micros=150, pace_micros=300),
                    dict(mode="multi", senders=2, per_sender=250, inbox_size=2, panic_at=[[1, 10]],
                         restart_delay_ms=40, handler_micros=100, pace_micros=250)]
+        if self.spawnrace_only:
+            cs = [dict(mode="spawnrace", senders=1, per_sender=n, inbox_size=sz) for n, sz in ((1, 1), (7, 1), (50, 2), (300, 1))]
+            if tier == "thorough":
+                cs += [dict(mode="spawnrace", senders=1, per_sender=rng.randint(1, 2000), inbox_size=rng.randint(1, 4)) for _ in range(10)]
+            return [{"input": c, "class": "spawnrace"} for c in cs]
         if self.restart_only:
             cs = restart
             if tier == "thorough":
@@ -203,7 +209,8 @@ class Deliver(Part):
     def to_coq(self, inp, obs):
         senders = inp.get("senders", 1)
         per = inp.get("per_sender", inp.get("total", 0))
-        return "{| c_senders := %s; c_per_sender := %s; c_got := %s; c_hang := %s; c_overlap := %s; c_restarts := %s |}" % (
+        return ("{| c_senders := %s; c_per_sender := %s; c_got := %s; c_hang := %s; c_overlap := %s; c_restarts := %s; "
+                "c_spawnrace := " + C.cbool(inp["mode"] == "spawnrace") + "; c_spawn_early := " + C.cbool(obs.get("spawn_early", False)) + " |}") % (
             C.cnat(senders), C.cnat(per),
             C.clist(["{| g_from := %s; g_seq := %s; g_sender_ok := %s |}" % (C.cnat(g[0]), C.cnat(min(g[1], 4999)), C.cbool(g[2] == 1))
                      for g in obs["got"]]), C.cbool(obs["hang"]), C.cbool(obs.get("overlap", False)),
@@ -211,6 +218,13 @@ class Deliver(Part):
 
     def describe_obs(self, obs):
         return {"received": len(obs["got"]), "hang": obs["hang"], "overlap": obs.get("overlap"), "first": obs["got"][:6]}
+
+
+class DeliverSpawnRace(Deliver):
+    """sends racing the Started handler of a freshly registered actor"""
+    name = "engine_spawn_race"
+    spawnrace_only = True
+    parallel = True
 
 
 class DeliverRestart(Deliver):
